@@ -644,3 +644,96 @@ def r_sizetab(repo, tier):
     if n < 30:
         raise AnalysisError("R-SIZETAB: only %d table rows resolved" % n)
     return out
+
+
+# ======================================================================================= direction flag steps
+def r_dfstep(repo, tier):
+    out = RuleOut(
+        "R-DFSTEP",
+        "x86/x64 string instructions: every pointer update selected by the direction flag has the shape "
+        "tst(<df>, P - K, P + K): the same pointer and the same step on both sides, decrement when DF is set (Intel SDM: the index "
+        "registers are incremented when DF=0 and decremented when DF=1 by the operand size)",
+    )
+    n = 0
+    for rel in ("amoco/arch/x86/asm.py", "amoco/arch/x64/asm.py"):
+        m = repo.mod(rel)
+        for f in m.functions.values():
+            for c in ast.walk(f.node):
+                if not (isinstance(c, ast.Call) and isinstance(c.func, ast.Name) and c.func.id == "tst" and len(c.args) == 3):
+                    continue
+                if not any(isinstance(k, ast.Name) and k.id == "df" for k in ast.walk(c.args[0])):
+                    continue
+                n += 1
+                a, b = c.args[1], c.args[2]
+                shape = isinstance(a, ast.BinOp) and isinstance(b, ast.BinOp) and isinstance(a.op, (ast.Sub, ast.Add)) and isinstance(b.op, (ast.Sub, ast.Add))
+                out.inst("%s::%s@%d" % (f.key, norm(c)[:60], c.lineno), {"function": f.dqual, "update": norm(c)[:90]})
+                if not shape:
+                    out.undecide(rel, f.dqual, norm(c)[:80], "direction-flag selection is not of the form tst(df, P - K, P + K)")
+                    continue
+                if not (isinstance(a.op, ast.Sub) and isinstance(b.op, ast.Add)):
+                    out.report(rel, f.dqual, "df step %s" % norm(c)[:80], c.lineno, "with DF set the pointer must be decremented and with DF clear incremented; here `%s` / `%s`" % (norm(a), norm(b)))
+                elif norm(a.left) != norm(b.left):
+                    out.report(rel, f.dqual, "df step %s" % norm(c)[:80], c.lineno, "the two directions update different pointers (`%s` / `%s`)" % (norm(a.left), norm(b.left)))
+                elif norm(a.right) != norm(b.right):
+                    out.report(rel, f.dqual, "df step %s" % norm(c)[:80], c.lineno, "the backward step `%s` differs from the forward step `%s`: both directions move by the operand size" % (norm(a.right), norm(b.right)))
+    out.stats["updates"] = n
+    if n < 14:
+        raise AnalysisError("R-DFSTEP: only %d direction-flag updates found" % n)
+    return out
+
+
+# ======================================================================================= RV32I / RV64I sibling semantics
+def r_rvsibling(repo, tier):
+    out = RuleOut(
+        "R-RVSIB",
+        "the RV32I and RV64I semantic modules implement the same base instructions: every function defined in both "
+        "arch/riscv/rv32i/asm.py and arch/riscv/rv64i/asm.py has the same body up to the register width constant (32 <-> 64); "
+        "when the two have the same statement structure (same statements, same stored locations) a differing expression means "
+        "one of the two siblings is wrong (the base ISA manual defines them by one text parametrised by XLEN); restructured "
+        "siblings are listed as undecided",
+    )
+    a = repo.mod("amoco/arch/riscv/rv32i/asm.py")
+    b = repo.mod("amoco/arch/riscv/rv64i/asm.py")
+
+    class W(ast.NodeTransformer):
+        def visit_Constant(self, n):
+            if isinstance(n.value, int) and not isinstance(n.value, bool) and n.value == 64:
+                return ast.copy_location(ast.Constant(value=32), n)
+            return n
+
+    import copy
+
+    def dump(f):
+        t = W().visit(copy.deepcopy(f.node))
+        t.decorator_list = []
+        return [norm(s) for s in t.body if not (isinstance(s, ast.Expr) and isinstance(s.value, ast.Constant) and isinstance(s.value.value, str))]
+
+    n = 0
+    # redefinitions: compare the effective (last) definition of each name
+    def last(m):
+        d = {}
+        for f in m.functions.values():
+            if f.cls is None and "." not in f.dqual:
+                if f.dqual not in d or f.node.lineno > d[f.dqual].node.lineno:
+                    d[f.dqual] = f
+        return d
+
+    fa, fb = last(a), last(b)
+    for name in sorted(set(fa) & set(fb)):
+        da, db = dump(fa[name]), dump(fb[name])
+        n += 1
+        same = da == db
+        out.inst("rv::%s" % name, {"function": name, "agree": same} if not same or len(out.samples) < 2 else None)
+        if not same and (len(da) != len(db) or any(x.split("=")[0].split("(")[0] != y.split("=")[0].split("(")[0] for x, y in zip(da, db))):
+            # one sibling was restructured (statements added / removed / other targets): not comparable statement by statement
+            out.undecide(b.rel, name, "sibling %s" % name, "rv32i and rv64i versions have different statement structure; not compared")
+            continue
+        if not same:
+            k = next((i for i in range(min(len(da), len(db))) if da[i] != db[i]), min(len(da), len(db)))
+            la = da[k] if k < len(da) else "<end>"
+            lb = db[k] if k < len(db) else "<end>"
+            out.report(b.rel, name, "sibling %s" % name, fb[name].node.lineno, "rv32i and rv64i %s differ beyond the width constant: rv32i has `%s` where rv64i has `%s` (rv32i/asm.py:%d, rv64i/asm.py:%d)" % (name, la[:80], lb[:80], fa[name].node.lineno, fb[name].node.lineno))
+    out.stats["pairs"] = n
+    if n < 40:
+        raise AnalysisError("R-RVSIB: only %d common functions" % n)
+    return out
